@@ -120,6 +120,9 @@ def run_kani(prop, tier, obs, mods, jobs, replay_dir, known_sites):
                 only_unwind = fc and all("unwinding assertion" in (c["description"] or "") for c in fc)
                 if only_unwind or (not fc and r["undetermined"]):
                     raise Undecided("harness %s: unwinding bound / undetermined checks: %s" % (name, fc or r["undetermined"]))
+                if not fc and r.get("should_panic") and "timed out" not in raw and not r["undetermined"]:
+                    # a #[kani::should_panic] harness in which nothing panicked: the "always panics" obligation is refuted
+                    fc = [{"description": "expected a panic (should_panic) but no execution panics", "function": name}]
                 if not fc:
                     raise Undecided("harness %s failed without a failed check (timeout / solver error?)\n%s" % (name, raw[-3000:]))
                 rec["status"] = "refuted"
@@ -282,7 +285,9 @@ def _expected_count(prop, tier):
 
 def write_evidence(prop, tier, seed, records, violations, annotations, cmds, vinfo, wall):
     notes = load_property_notes().get(prop, {})
-    proved = [r for r in records if not r.get("witness")]
+    known_names = {v["rec"]["name"] for v in violations if v["known"]}
+    # obligations = what is claimed to hold; refutation witnesses and recorded known findings are listed separately
+    proved = [r for r in records if not r.get("witness") and r["name"] not in known_names]
     discharged = [r for r in proved if r["status"] == "discharged"]
     bounded = [r for r in proved if r.get("bounded")]
     fns = sorted({r["function"] for r in records if r.get("function")})
